@@ -39,6 +39,19 @@ func (c *Ctx) genRes() *resources.Resource {
 		return nil
 	case p == 1:
 		return resources.NewResource()
+	case p == 2:
+		// mostly explicit zeros on a small subset: "missing type = zero" cases with disjoint key sets
+		r := resources.NewResource()
+		for _, k := range resKeys {
+			if c.chance(0.35) {
+				if c.chance(0.75) {
+					r.Resources[k] = 0
+				} else {
+					r.Resources[k] = resources.Quantity(c.qty())
+				}
+			}
+		}
+		return r
 	}
 	r := resources.NewResource()
 	for _, k := range resKeys {
